@@ -61,6 +61,9 @@ pub struct RunReport {
     pub nontrivial: bool,
     /// Engine executions (contexts / configurations) performed by the run.
     pub execs: u64,
+    /// The run left thread-local engine / collector state unusable: the worker must exit.
+    #[serde(default)]
+    pub poisoned: bool,
 }
 impl RunReport {
     pub fn violate(&mut self, class: impl Into<String>, detail: impl Into<String>) {
@@ -225,6 +228,18 @@ pub fn worker(prop: &Prop, tier: Tier, seed: u64, runs: impl Iterator<Item = u64
         let mut o = out.lock();
         let _ = writeln!(o, "E {run} {v}");
         let _ = o.flush();
+        drop(o);
+        // a caught panic may have left thread-local engine / collector state inconsistent:
+        // never run another scenario on this thread (the orchestrator starts a new worker
+        // for the rest of the list)
+        if rep.poisoned || rep.violations.iter().any(|x| x.class.starts_with("panic@")) {
+            // `_exit`: skip thread-local destructors (the collector would walk the leaked heap)
+            unsafe extern "C" {
+                fn _exit(code: i32) -> !;
+            }
+            // SAFETY: plain libc call, never returns.
+            unsafe { _exit(0) }
+        }
     }
 }
 
